@@ -329,7 +329,7 @@ theorem encode_of_gen {a : Acc} {tbl : Option Tbl} {v : Nat} {bits : List Nat} {
   exact ⟨s, c, hr, he⟩
 
 /-- from a model run with the model's fuel to the generated code with any fuel from `L·4^k + 3` on. -/
-theorem gen_of_encode {k : Nat} {a : Acc} {tbl : Option Tbl} {v : Nat} {bits : List Nat} {fast : Bool}
+theorem genEncode_of_model {k : Nat} {a : Acc} {tbl : Option Tbl} {v : Nat} {bits : List Nat} {fast : Bool}
     {fuel : Nat} {vb : Bool} {s : List Char} (hw : WFdB k a) (hv : v < 4 ^ k) (ht : TblOK tbl a)
     (hb : IsBits bits) (hf : bits.length * 4 ^ k + 3 ≤ fuel)
     (h : encode a tbl (v : Int) bits fast 0 (encodeFuel a bits) = .ok (s, none)) :
@@ -514,7 +514,8 @@ example : ∃ d, ∃ (s : Mask) (d' : PV), PV.tup [d, accPV gcBalanced2] = .tup 
   obtain ⟨d, hg, -⟩ := gc_ccg
   exact ⟨d, (gen_C03_holds 2 2 gcMask false 18 false (by decide) (by decide) (by decide) (by decide)).1 _ hg⟩
 
-/-- a single vertex without a self-loop partner: no closed subset, `ValueError`. -/
+/-- order 1 with only `A` marked (as a 0/1 integer array): one marked successor, fewer than the threshold 2 — no
+non-empty closed subset, `ValueError`. -/
 example : Gen.connect_coding_graph 6 (.int 1) (maskPV true #[true, false, false, false]) (.int 2) (.bool false) =
     .error .valueError :=
   ccg_of_model_error (k := 1) (t := 2) (by decide) (by decide) (by decide +kernel)
@@ -692,7 +693,7 @@ theorem gen_C04_terminates_normal (k t : Nat) (m : Mask) (asInt : Bool) (gfuel :
   have hvs := (hl v).1 hv
   obtain ⟨s, he, hwalk, hlen⟩ := C04_terminates_normal k t m vs a v tbl bits hk hm ht hc hvs hb
   rw [hw.1] at hlen
-  exact ⟨s, gen_of_encode hw (hlt v hvs) htbl hb hf he, hwalk, hlen⟩
+  exact ⟨s, genEncode_of_model hw (hlt v hvs) htbl hb hf he, hwalk, hlen⟩
 
 example : ∃ s, Gen.encode 131 (bitsPV [0, 1, 0, 1, 0, 1, 0, 1]) (accPV gcBalanced2) (.int 1) (.bool false) (.int 0)
       PV.none (.bool false) (.bool false) = .ok (cstr s) ∧
@@ -717,7 +718,7 @@ theorem gen_C04_terminates_fast (k t : Nat) (m : Mask) (asInt : Bool) (gfuel : N
   have hvs := (hl v).1 hv
   obtain ⟨s, he, hwalk, hlen⟩ := C04_terminates_fast k t m vs a v tbl bits hk hm ht hc hvs hb h3
   rw [hw.1] at hlen
-  exact ⟨s, gen_of_encode hw (hlt v hvs) htbl hb hf he, hwalk, hlen⟩
+  exact ⟨s, genEncode_of_model hw (hlt v hvs) htbl hb hf he, hwalk, hlen⟩
 
 example : ∃ s, Gen.encode 131 (bitsPV [0, 1, 0, 1, 0, 1, 0, 1]) (accPV gcBalanced2) (.int 1) (.bool true) (.int 0)
       PV.none (.bool false) (.bool true) = .ok (cstr s) ∧
@@ -967,5 +968,209 @@ example : ∃ s, Gen.encode 131 (bitsPV [0, 1, 0, 1, 0, 1, 0, 1]) (accPV gcBalan
   obtain ⟨d, hg, hd⟩ := gc_ccg
   exact gen_E2E_write 2 2 gcFilter gcMask d gcBalanced2 1 none _ 6 18 131 false false false (by decide) (by decide)
     (by decide) (by decide) (by decide) gc_find_gen hg (gc_listed hd) (tblOK_none _) msg_bits
+
+/-! ## C13 — vertex indices are k-mers and arcs are shift-append -/
+
+/-- the list the generated `obtain_latters` returns is: drop the first nucleotide of the k-mer, append one, in
+`A, C, G, T` order (`C13_latters` about the generated code; any fuel — the function has no `while` loop). -/
+theorem gen_C13_latters (k v fuel : Nat) (hk : 1 ≤ k) (h : v < 4 ^ k) :
+    Gen.obtain_latters fuel (.int (v : Int)) (.int (k : Int)) =
+      .ok (natsPV ("ACGT".toList.map fun c => kmerIdx ((kmerOf k v).tail ++ [c]))) := by
+  rw [tie_obtain_latters, C13_latters k v hk h]
+
+/-- the list the generated `obtain_formers` returns is: drop the last nucleotide, prepend one, in `A, C, G, T`
+order (`C13_formers` about the generated code). -/
+theorem gen_C13_formers (k v fuel : Nat) (hk : 1 ≤ k) (h : v < 4 ^ k) :
+    Gen.obtain_formers fuel (.int (v : Int)) (.int (k : Int)) =
+      .ok (natsPV ("ACGT".toList.map fun c => kmerIdx (c :: (kmerOf k v).dropLast))) := by
+  rw [tie_obtain_formers k v fuel hk, C13_formers k v hk h]
+
+/-- order 3: vertex 6 = `ACG` has the successors `CGA, CGC, CGG, CGT` = 24 … 27; vertex 27 = `CGT` has the
+predecessors `ACG, CCG, GCG, TCG` = 6, 22, 38, 54. -/
+example : Gen.obtain_latters 0 (.int 6) (.int 3) =
+    .ok (natsPV ("ACGT".toList.map fun c => kmerIdx ((kmerOf 3 6).tail ++ [c]))) :=
+  gen_C13_latters 3 6 0 (by decide) (by decide)
+example : Gen.obtain_formers 0 (.int 27) (.int 3) =
+    .ok (natsPV ("ACGT".toList.map fun c => kmerIdx (c :: (kmerOf 3 27).dropLast))) :=
+  gen_C13_formers 3 27 0 (by decide) (by decide)
+example : ("ACGT".toList.map fun c => kmerIdx ((kmerOf 3 6).tail ++ [c])) = [24, 25, 26, 27] ∧
+    ("ACGT".toList.map fun c => kmerIdx (c :: (kmerOf 3 27).dropLast)) = [6, 22, 38, 54] := by decide +kernel
+
+/-- the members of both lists are vertex indices (`C13_latters_lt`, `C13_formers_lt`). -/
+theorem gen_C13_lt (k v fuel : Nat) (hk : 1 ≤ k) (h : v < 4 ^ k) :
+    ∃ ls fs, Gen.obtain_latters fuel (.int (v : Int)) (.int (k : Int)) = .ok (natsPV ls) ∧
+      Gen.obtain_formers fuel (.int (v : Int)) (.int (k : Int)) = .ok (natsPV fs) ∧
+      (∀ w ∈ ls, w < 4 ^ k) ∧ ∀ u ∈ fs, u < 4 ^ k :=
+  ⟨_, _, tie_obtain_latters k v fuel, tie_obtain_formers k v fuel hk, C13_latters_lt k v hk, C13_formers_lt k v hk h⟩
+
+/-- `u` is in the list `obtain_formers(v, k)` returns exactly when `v` is in the list `obtain_latters(u, k)`
+returns (`C13_former_iff_latter` about the generated code). -/
+theorem gen_C13_former_iff_latter (k u v fuel fuel' : Nat) (hk : 1 ≤ k) (hu : u < 4 ^ k) (hv : v < 4 ^ k) :
+    ∃ fs ls, Gen.obtain_formers fuel (.int (v : Int)) (.int (k : Int)) = .ok (natsPV fs) ∧
+      Gen.obtain_latters fuel' (.int (u : Int)) (.int (k : Int)) = .ok (natsPV ls) ∧ (u ∈ fs ↔ v ∈ ls) :=
+  ⟨_, _, tie_obtain_formers k v fuel hk, tie_obtain_latters k u fuel', C13_former_iff_latter k u v hk hu hv⟩
+
+example : ∃ fs ls, Gen.obtain_formers 0 (.int 27) (.int 3) = .ok (natsPV fs) ∧
+    Gen.obtain_latters 0 (.int 6) (.int 3) = .ok (natsPV ls) ∧ (6 ∈ fs ↔ 27 ∈ ls) :=
+  gen_C13_former_iff_latter 3 6 27 0 0 (by decide) (by decide) (by decide)
+
+/-- the accessor the generated `get_complete_accessor` returns holds the `j`-th successor of every vertex in
+column `j`, and is a de Bruijn sub-table (`C13_complete` about the generated code). -/
+theorem gen_C13_complete (k fuel : Nat) (verbose : Bool) :
+    ∃ a : Acc, Gen.get_complete_accessor fuel (.int (k : Int)) (.bool verbose) = .ok (accPV a) ∧ WFdB k a ∧
+      ∀ v j : Nat, v < 4 ^ k → j < 4 → a.ent v j = ((v * 4 + j) % 4 ^ k : Nat) :=
+  ⟨_, tie_get_complete_accessor k fuel verbose, wfdb_complete k, fun v j h hj => (C13_complete k v j h hj).1⟩
+
+example : ∃ a : Acc, Gen.get_complete_accessor 0 (.int 2) (.bool false) = .ok (accPV a) ∧ WFdB 2 a ∧
+    ∀ v j : Nat, v < 4 ^ 2 → j < 4 → a.ent v j = ((v * 4 + j) % 4 ^ 2 : Nat) := gen_C13_complete 2 0 false
+
+/-- every graph the generated builders return holds in column `j` either `-1` or the `j`-th shift-successor:
+`connect_valid_graph` (`C13_wfdb_valid_graph`) … -/
+theorem gen_C13_wfdb_valid_graph (k : Nat) (m : Mask) (asInt : Bool) (fuel : Nat) (verbose : Bool) (r : PV)
+    (hm : m.size = 4 ^ k)
+    (h : Gen.connect_valid_graph fuel (.int (k : Int)) (maskPV asInt m) (.bool verbose) = .ok r) :
+    ∃ a : Acc, r = accPV a ∧ WFdB k a := by
+  rw [tie_connect_valid_graph k m asInt fuel verbose hm] at h
+  obtain ⟨a, ha, rfl⟩ := map_ok_inv h
+  exact ⟨a, rfl, C13_wfdb_valid_graph k (some m) a ha⟩
+
+/-- … `connect_coding_graph`, every threshold (`C13_wfdb_coding_graph`) … -/
+theorem gen_C13_wfdb_coding_graph (k t : Nat) (m : Mask) (asInt : Bool) (fuel : Nat) (verbose : Bool) (r : PV)
+    (hm : m.size = 4 ^ k) (hf : 4 ^ k + 2 ≤ fuel)
+    (h : Gen.connect_coding_graph fuel (.int (k : Int)) (maskPV asInt m) (.int (t : Int)) (.bool verbose) = .ok r) :
+    ∃ (d : PV) (a : Acc), r = .tup [d, accPV a] ∧ WFdB k a := by
+  obtain ⟨vs, a, d, hc, rfl, -⟩ := ccg_of_ok hm hf h
+  exact ⟨d, a, rfl, C13_wfdb_coding_graph k m t vs a hc⟩
+
+/-- … and `latter_map_to_accessor` on a legal latter map: distinct keys below `4^k`, every listed successor a
+shift-successor of its key (`C13_wfdb_latter_map`). -/
+theorem gen_C13_wfdb_latter_map (k : Nat) (lm : LMap) (fuel : Nat) (verbose : Bool) (r : PV)
+    (hn : LMap.KeysNodup lm) (hl : ∀ p ∈ lm, p.1 < 4 ^ k ∧ ∀ w ∈ p.2, w ∈ obtainLatters k p.1)
+    (h : Gen.latter_map_to_accessor fuel (lmapPV lm) (.int (k : Int)) .none (.bool verbose) = .ok r) :
+    ∃ a : Acc, r = accPV a ∧ WFdB k a := by
+  rw [tie_latter_map_to_accessor_plain lm k fuel verbose hn (fun p hp => (hl p hp).1)] at h
+  obtain ⟨a, ha, rfl⟩ := map_ok_inv h
+  exact ⟨a, rfl, C13_wfdb_latter_map k lm a hl ha⟩
+
+example : ∃ a : Acc, accPV gcBalanced2 = accPV a ∧ WFdB 2 a :=
+  gen_C13_wfdb_valid_graph 2 gcMask false 0 false _ (by decide) gc_valid_gen
+example : ∃ d, ∃ (d' : PV) (a : Acc), PV.tup [d, accPV gcBalanced2] = .tup [d', accPV a] ∧ WFdB 2 a := by
+  obtain ⟨d, hg, -⟩ := gc_ccg
+  exact ⟨d, gen_C13_wfdb_coding_graph 2 2 gcMask false 18 false _ (by decide) (by decide) hg⟩
+
+/-! ## C14 — the graph representations are interchangeable
+
+`a` is any arc subset of the order-`k` de Bruijn graph (`WFdB k a`), not only complete or vertex-induced ones.
+The adjacency-matrix representation is not translated (see the header). -/
+
+/-- accessor → latter map → accessor is the identity on the generated code: `accessor_to_latter_map` returns the
+`dict` of a latter map `lm`, and `latter_map_to_accessor(lm, k)` returns the accessor
+(`C14_latter_map_roundtrip`). -/
+theorem gen_C14_latter_map_roundtrip (k : Nat) (a : Acc) (fuel fuel' : Nat) (vb vb' : Bool) (hk : 1 ≤ k)
+    (h : WFdB k a) :
+    ∃ lm : LMap, Gen.accessor_to_latter_map fuel (accPV a) (.bool vb) = .ok (lmapPV lm) ∧
+      Gen.latter_map_to_accessor fuel' (lmapPV lm) (.int (k : Int)) .none (.bool vb') = .ok (accPV a) := by
+  refine ⟨accessorToLatterMap a, tie_accessor_to_latter_map a fuel vb (wf_of_wfdb h), ?_⟩
+  rw [tie_latter_map_to_accessor_plain _ k fuel' vb' (keysNodup_latterMap a) (keys_lt_latterMap h.1),
+    C14_latter_map_roundtrip k a hk h]
+  rfl
+
+theorem GraphCor.gc_wfdb : WFdB 2 gcBalanced2 := C13_wfdb_induced 2 gcMask
+
+example : ∃ lm : LMap, Gen.accessor_to_latter_map 0 (accPV gcBalanced2) (.bool false) = .ok (lmapPV lm) ∧
+    Gen.latter_map_to_accessor 0 (lmapPV lm) (.int 2) .none (.bool true) = .ok (accPV gcBalanced2) :=
+  gen_C14_latter_map_roundtrip 2 gcBalanced2 0 0 false true (by decide) gc_wfdb
+
+/-- the `dict` the generated `accessor_to_latter_map` returns has distinct keys, lists exactly the vertices that
+have arcs, in increasing order, each with exactly its live successors in column order
+(`C14_latter_map_content`). -/
+theorem gen_C14_latter_map_content (k : Nat) (a : Acc) (fuel : Nat) (vb : Bool) (h : WFdB k a) :
+    ∃ lm : LMap, Gen.accessor_to_latter_map fuel (accPV a) (.bool vb) = .ok (lmapPV lm) ∧ LMap.KeysNodup lm ∧
+      lm.map (·.1) = (List.range (4 ^ k)).filter (fun (v : Nat) => decide (a.live (v : Int) ≠ [])) ∧
+      ∀ (v : Nat) ls, (v, ls) ∈ lm → ls = (a.live (v : Int)).map fun j => (v * 4 + j) % 4 ^ k :=
+  ⟨_, tie_accessor_to_latter_map a fuel vb (wf_of_wfdb h), keysNodup_latterMap a, (C14_latter_map_content k a h).1,
+    (C14_latter_map_content k a h).2⟩
+
+example : ∃ lm : LMap, Gen.accessor_to_latter_map 0 (accPV gcBalanced2) (.bool false) = .ok (lmapPV lm) ∧
+    LMap.KeysNodup lm ∧
+    lm.map (·.1) = (List.range (4 ^ 2)).filter (fun (v : Nat) => decide (gcBalanced2.live (v : Int) ≠ [])) ∧
+    ∀ (v : Nat) ls, (v, ls) ∈ lm → ls = (gcBalanced2.live (v : Int)).map fun j => (v * 4 + j) % 4 ^ 2 :=
+  gen_C14_latter_map_content 2 gcBalanced2 0 false gc_wfdb
+
+/-- the generated `obtain_vertices` returns exactly the vertices with arcs, in increasing order
+(`C14_vertices`). -/
+theorem gen_C14_vertices (k : Nat) (a : Acc) (fuel : Nat) (h : WFdB k a) :
+    Gen.obtain_vertices fuel (accPV a) =
+      .ok (idxArrPV ((List.range (4 ^ k)).filter (fun (v : Nat) => decide (a.live (v : Int) ≠ [])))) := by
+  rw [tie_obtain_vertices a fuel (wf_of_wfdb h), C14_vertices k a h]
+
+example : Gen.obtain_vertices 0 (accPV gcBalanced2) =
+    .ok (idxArrPV ((List.range (4 ^ 2)).filter (fun (v : Nat) => decide (gcBalanced2.live (v : Int) ≠ [])))) :=
+  gen_C14_vertices 2 gcBalanced2 0 gc_wfdb
+example : (List.range (4 ^ 2)).filter (fun (v : Nat) => decide (gcBalanced2.live (v : Int) ≠ [])) =
+    [1, 2, 4, 7, 8, 11, 13, 14] := by decide +kernel
+
+/-- depth-`d` leaf queries of the generated `obtain_leaf_vertices` return the same array from either
+representation, equal (as a multiset) to the end points of all `d`-step walks from `v`; giving both
+representations, or neither, raises `ValueError` (`C14_leaves`). -/
+theorem gen_C14_leaves (k : Nat) (a : Acc) (v d fuel fuel' : Nat) (h : WFdB k a) (hv : v < 4 ^ k) :
+    ∃ l : List Nat,
+      Gen.obtain_leaf_vertices fuel (.int (v : Int)) (.int (d : Int)) (accPV a) .none = .ok (idxArrPV l) ∧
+      Gen.obtain_leaf_vertices fuel' (.int (v : Int)) (.int (d : Int)) .none (lmapPV (accessorToLatterMap a)) =
+        .ok (idxArrPV l) ∧
+      l.Perm (walkEnds a d v) ∧
+      Gen.obtain_leaf_vertices fuel (.int (v : Int)) (.int (d : Int)) (accPV a) (lmapPV (accessorToLatterMap a)) =
+        .error .valueError ∧
+      Gen.obtain_leaf_vertices fuel (.int (v : Int)) (.int (d : Int)) .none .none = .error .valueError := by
+  obtain ⟨h1, h2, h3⟩ := C14_leaves k a v d h hv
+  obtain ⟨b1, b2⟩ := tie_obtain_leaf_vertices_bad a (accessorToLatterMap a) v d fuel
+  refine ⟨leafAcc a d [v], ?_, ?_, h3, b1, b2⟩
+  · rw [tie_obtain_leaf_vertices_acc a v d fuel (wf_of_wfdb h) (by rw [h.1]; exact hv), h1]; rfl
+  · rw [tie_obtain_leaf_vertices_map _ v d fuel' (keysNodup_latterMap a), h2]; rfl
+
+/-- the two queries on what `accessor_to_latter_map` returned. -/
+theorem gen_C14_leaves' (k : Nat) (a : Acc) (v d f0 fuel fuel' : Nat) (vb : Bool) (h : WFdB k a) (hv : v < 4 ^ k) :
+    ∃ (lm : LMap) (l : List Nat), Gen.accessor_to_latter_map f0 (accPV a) (.bool vb) = .ok (lmapPV lm) ∧
+      Gen.obtain_leaf_vertices fuel (.int (v : Int)) (.int (d : Int)) (accPV a) .none = .ok (idxArrPV l) ∧
+      Gen.obtain_leaf_vertices fuel' (.int (v : Int)) (.int (d : Int)) .none (lmapPV lm) = .ok (idxArrPV l) ∧
+      l.Perm (walkEnds a d v) := by
+  obtain ⟨l, h1, h2, h3, -, -⟩ := gen_C14_leaves k a v d fuel fuel' h hv
+  exact ⟨_, l, tie_accessor_to_latter_map a f0 vb (wf_of_wfdb h), h1, h2, h3⟩
+
+example : ∃ l : List Nat,
+    Gen.obtain_leaf_vertices 0 (.int 1) (.int 3) (accPV gcBalanced2) .none = .ok (idxArrPV l) ∧
+    Gen.obtain_leaf_vertices 0 (.int 1) (.int 3) .none (lmapPV (accessorToLatterMap gcBalanced2)) =
+      .ok (idxArrPV l) ∧
+    l.Perm (walkEnds gcBalanced2 3 1) ∧
+    Gen.obtain_leaf_vertices 0 (.int 1) (.int 3) (accPV gcBalanced2) (lmapPV (accessorToLatterMap gcBalanced2)) =
+      .error .valueError ∧
+    Gen.obtain_leaf_vertices 0 (.int 1) (.int 3) .none .none = .error .valueError :=
+  gen_C14_leaves 2 gcBalanced2 1 3 0 0 gc_wfdb (by decide)
+
+/-! ## C19 — intersection scores (the part of C19 whose function is translated) -/
+
+/-- the score table the generated `calculate_intersection_score` returns for the latter map of a de Bruijn
+sub-table has the accessor's shape `4^k × 4` and is positive only on existing arcs, whatever the two flags
+(`C19_scores` about the generated code; the latter map is the one the generated `accessor_to_latter_map`
+returns). -/
+theorem gen_C19_scores (k : Nat) (a : Acc) (ins del : Bool) (f0 fuel : Nat) (vb vb' : Bool) (hk : 1 ≤ k)
+    (h : WFdB k a) :
+    ∃ (lm : LMap) (sc : Array (Array Nat)),
+      Gen.accessor_to_latter_map f0 (accPV a) (.bool vb) = .ok (lmapPV lm) ∧
+      Gen.calculate_intersection_score fuel (lmapPV lm) (.int (k : Int)) (.bool ins) (.bool del) (.bool vb') =
+        .ok (scoresPV sc) ∧
+      sc.size = 4 ^ k ∧ (∀ v, v < 4 ^ k → (sc.getD v #[]).size = 4) ∧
+      ∀ v j : Nat, v < 4 ^ k → j < 4 → 0 < scoreAt sc v j → 0 ≤ a.ent (v : Int) j := by
+  obtain ⟨h1, h2, h3⟩ := C19_scores k a ins del hk h
+  exact ⟨accessorToLatterMap a, _, tie_accessor_to_latter_map a f0 vb (wf_of_wfdb h),
+    tie_calculate_intersection_score _ k fuel ins del vb' (keysNodup_latterMap a) (keys_lt_latterMap h.1), h1, h2, h3⟩
+
+example : ∃ (lm : LMap) (sc : Array (Array Nat)),
+    Gen.accessor_to_latter_map 0 (accPV gcBalanced2) (.bool false) = .ok (lmapPV lm) ∧
+    Gen.calculate_intersection_score 0 (lmapPV lm) (.int 2) (.bool true) (.bool true) (.bool false) =
+      .ok (scoresPV sc) ∧
+    sc.size = 4 ^ 2 ∧ (∀ v, v < 4 ^ 2 → (sc.getD v #[]).size = 4) ∧
+    ∀ v j : Nat, v < 4 ^ 2 → j < 4 → 0 < scoreAt sc v j → 0 ≤ gcBalanced2.ent (v : Int) j :=
+  gen_C19_scores 2 gcBalanced2 true true 0 0 false false (by decide) gc_wfdb
 
 end Dsw.Tie
